@@ -77,6 +77,11 @@ pub fn rounds_for_full_sensitivity(w: &Workload) -> u64 {
             *c = new;
         }
     }
+    // an over-aligned request can strand the chunk cut off in front of the aligned address
+    // (at least one minimal chunk)
+    if w.blocks.iter().any(|b| b.1 > 4) {
+        smallest = smallest.min(32);
+    }
     let smallest = smallest.max(16);
     (2 * bound(w) as u64) / (smallest as u64 + 16) + 2
 }
@@ -287,6 +292,7 @@ pub fn check_workload(ctx: &Ctx, w: &Workload) -> CaseResult {
     rep.class_if(classes >= 2, "mixed-size-classes");
     rep.class_if(!w.early_free.is_empty(), "interleaved-frees");
     rep.class_if(!w.resize.is_empty(), "with-realloc");
+    rep.class_if(w.blocks.iter().any(|b| b.1 > 4), "over-aligned-blocks");
     rep.class_if(w.zeroed != 0, "with-calloc");
     {
         let n = w.blocks.len().max(1);
